@@ -102,6 +102,8 @@ type world struct {
 	start    time.Time
 	gateMu   sync.Mutex
 	mn       interface{ Close() error }
+	late     []peer.ID
+	lagBy    []int         // per peer: how many certificates it trails the production by (nil: none trails)
 	gate     chan struct{} // closed once the harness' own clock.Add has returned (two concurrent Adds would race)
 }
 
@@ -176,6 +178,10 @@ func newWorld(set settings, npeers int, running bool) *world {
 		go func() { w.done <- w.sub.VerifRun(rctx) }()
 		// the unbuffered send completes only once the loop is in its select, i.e. after the timer was armed
 		for i := 0; i < npeers; i++ {
+			if lateDiscovery && i > 0 {
+				w.late = append(w.late, hs[1+i].ID()) // discovered after the first tick (see discoverLate)
+				continue
+			}
 			w.discover <- hs[1+i].ID()
 		}
 	} else {
@@ -184,6 +190,17 @@ func newWorld(set settings, npeers int, running bool) *world {
 		}
 	}
 	return w
+}
+
+// lateDiscovery: set while a world is created whose peers 1.. become known to the subscriber only after its first
+// tick (a peer population that grows).
+var lateDiscovery bool
+
+func (w *world) discoverLate() {
+	for _, id := range w.late {
+		w.discover <- id
+	}
+	w.late = nil
 }
 
 func (w *world) stop() {
@@ -229,6 +246,9 @@ func (w *world) produce(k int, local bool) {
 	}
 	for i := range w.peerHas {
 		w.peerHas[i] = top + k
+		if i < len(w.lagBy) {
+			w.peerHas[i] = max(0, top+k-w.lagBy[i]) // a peer that always trails what has been produced
+		}
 	}
 }
 
@@ -352,6 +372,9 @@ type step struct {
 	// During: the K certificates arrive in the node's own store while its first request of the round is in flight
 	// (instead of before the tick); the peers do not have them.
 	During bool `json:"local_during_request,omitempty"`
+	// Overlap: the K certificates appear at the peers before the tick, and the first Overlap of them also reach the
+	// node's own store (its own GPBFT finalizes those instances) while its first request of the round is in flight.
+	Overlap int `json:"first_n_also_local_during_request,omitempty"`
 }
 
 func (s step) String() string {
@@ -365,6 +388,9 @@ func (s step) String() string {
 	}
 	if s.During {
 		src = "local-during-request"
+	}
+	if s.Overlap > 0 {
+		src = fmt.Sprintf("peer+first-%d-local-during-request", s.Overlap)
 	}
 	return fmt.Sprintf("%d@%s/req%d%s", s.K, src, s.Req, f)
 }
@@ -387,6 +413,7 @@ func runSequence(set settings, npeers int, seq []step) (fp, what string, timedOu
 			w.during = st.K
 		} else {
 			w.produce(st.K, st.Local)
+			w.during = st.Overlap
 		}
 		w.reqTime = time.Duration(st.Req) * set.Initial / 4
 		w.peerFail[0] = st.Fail
@@ -437,6 +464,8 @@ func main() {
 				}
 			}
 			rec(append(cur, step{K: 1, During: true}))
+			rec(append(cur, step{K: 2, Overlap: 1}))
+			rec(append(cur, step{K: 5, Overlap: 2}))
 		}
 		rec(nil)
 		for _, npeers := range []int{1, 2} {
@@ -449,6 +478,7 @@ func main() {
 						w.during = st.K
 					} else {
 						w.produce(st.K, st.Local)
+						w.during = st.Overlap
 					}
 					if npeers == 2 && i == 1 {
 						w.peerHas[1] = max(0, w.peerHas[1]-1) // a lagging peer
@@ -502,7 +532,7 @@ func main() {
 			}
 		}
 	}
-	menu = append(menu, step{K: 1, Fail: true}, step{K: 0, Fail: true}, step{K: 1, During: true, Req: 1}, step{K: 1, During: true})
+	menu = append(menu, step{K: 1, Fail: true}, step{K: 0, Fail: true}, step{K: 1, During: true, Req: 1}, step{K: 1, During: true}, step{K: 2, Overlap: 1})
 	var seqs [][]step
 	var rec func(cur []step)
 	rec = func(cur []step) {
@@ -576,7 +606,7 @@ func main() {
 		cadence(chk, sets, thorough)
 	}
 	chk.Set("exhaustive", chk.Violations() == 0 && timeouts.Load() == 0)
-	chk.Set("rule", "part 1: every sequence of <=3 ticks over {0,1,2,5 certificates} x {arriving locally, at the peers} with 1 and 2 peers (one lagging): CatchUp and a polling round must report exactly the store advance. part 2: the production run loop under a mock clock, every sequence of 3 (thorough 4) ticks over the same menu x request time {0, 1/4, 1} initial interval plus a failing peer, three (min, initial, max) settings: the wait recorded right after the timer is re-armed must be the predicted interval (reference predictor fed with the true store advance), extended by no more than the time the requests took and half the interval. part 3: long steady / bursty / stalled-resumed production patterns")
+	chk.Set("rule", "part 1: every sequence of <=3 ticks over {0,1,2,5 certificates} x {arriving locally, at the peers} (also: arriving at the peers with the first of them reaching the node's own store while its request is in flight) with 1 and 2 peers (one lagging): CatchUp and a polling round must report exactly the store advance and leave the poller at the store's next instance. part 2: the production run loop under a mock clock, every sequence of 3 (thorough 4) ticks over the same menu x request time {0, 1/4, 1} initial interval plus a failing peer, three (min, initial, max) settings: the wait recorded right after the timer is re-armed must be the predicted interval (reference predictor fed with the true store advance), extended by no more than the time the requests took and half the interval. part 3: long steady / bursty / stalled-resumed production patterns with one peer, and steady production with one up-to-date peer among 40 that trail or never have anything (more peers than a round asks), known from the start or discovered after the first tick: the interval must settle near the production period")
 	chk.Assume("mocknet; mock clock; the wait is observed through the gauge the loop records right after timer.Reset; reference predictor = documented rules of predictor.go")
 	chk.Finish()
 }
@@ -614,70 +644,93 @@ func cadence(chk *vcommon.Check, sets []settings, thorough bool) {
 	if thorough {
 		nticks = 300
 	}
-	for _, set := range sets[:2] {
-		for _, pat := range pats {
-			w := newWorld(set, 1, true)
-			next := w.start.Add(set.Initial)
-			var last time.Duration
-			var intervals []time.Duration
-			polls, certsTotal := 0, 0
-			fail := ""
-			for i := 0; i < nticks; i++ {
-				upto := next.Sub(w.start)
-				k := pat.produced(set, last, upto)
-				last = upto
-				w.produce(k, false)
-				certsTotal += k
-				o, fp, what := w.tick(next)
-				if what == "TIMEOUT" {
-					chk.Add("harness_timeouts", 1)
-					break
+	// peer populations: one peer; one up-to-date peer among 40 that trail by 3 certificates (more peers than one
+	// polling round asks, so whom the subscriber keeps asking matters)
+	type population struct {
+		name  string
+		lagBy []int
+		late  bool
+	}
+	crowd := make([]int, 41)
+	stuck := make([]int, 41)
+	for i := 1; i < len(crowd); i++ {
+		crowd[i] = 3
+		stuck[i] = 1 << 30 // never has anything
+	}
+	pops := []population{{"1 peer", nil, false}, {"1 up-to-date peer + 40 trailing by 3", crowd, false}, {"1 up-to-date peer, then 40 trailing by 3 are discovered", crowd, true}, {"1 up-to-date peer, then 40 peers that never have anything are discovered", stuck, true}, {"1 up-to-date peer + 40 peers that never have anything", stuck, false}}
+	var runs []any
+	defer func() { chk.Set("cadence_runs", runs) }()
+	for _, pop := range pops {
+		for _, set := range sets[:2] {
+			for pi, pat := range pats {
+				if pop.lagBy != nil && (pi != 1 || set != sets[0]) {
+					continue // the crowd: steady production at the initial interval, first settings
 				}
-				if fp != "" {
-					chk.Violation(fp, fmt.Sprintf("settings %+v, pattern %q, tick #%d: %s", set, pat.name, i, what), map[string]any{"kind": "cadence", "settings": fmt.Sprintf("%+v", set), "pattern": pat.name, "tick": i})
-					fail = fp
-					break
-				}
-				polls++
-				intervals = append(intervals, o.interval)
-				next = o.now.Add(o.wait)
-			}
-			w.stop()
-			if fail != "" {
-				return
-			}
-			if pat.steadyT != nil && len(intervals) == nticks {
-				T := pat.steadyT(set)
-				// the last third of the run: the waits must hover around T, not pin to min or max
-				var sum time.Duration
-				tail := intervals[2*nticks/3:]
-				pinnedMin, pinnedMax := true, true
-				for _, iv := range tail {
-					sum += iv
-					if iv != set.Min {
-						pinnedMin = false
+				w := newWorld(set, max(1, len(pop.lagBy)), true)
+				w.lagBy = pop.lagBy
+				next := w.start.Add(set.Initial)
+				var last time.Duration
+				var intervals []time.Duration
+				polls, certsTotal := 0, 0
+				fail := ""
+				for i := 0; i < nticks; i++ {
+					upto := next.Sub(w.start)
+					k := pat.produced(set, last, upto)
+					last = upto
+					w.produce(k, false)
+					certsTotal += k
+					o, fp, what := w.tick(next)
+					if what == "TIMEOUT" {
+						chk.Add("harness_timeouts", 1)
+						break
 					}
-					if iv != set.Max {
-						pinnedMax = false
+					if fp != "" {
+						chk.Violation(fp, fmt.Sprintf("settings %+v, %s, pattern %q, tick #%d: %s", set, pop.name, pat.name, i, what), map[string]any{"kind": "cadence", "settings": fmt.Sprintf("%+v", set), "pattern": pat.name, "population": pop.name, "tick": i})
+						fail = fp
+						break
 					}
+					polls++
+					intervals = append(intervals, o.interval)
+					next = o.now.Add(o.wait)
 				}
-				avg := sum / time.Duration(len(tail))
-				rep := map[string]any{"kind": "cadence", "settings": fmt.Sprintf("%+v", set), "pattern": pat.name}
-				if T > set.Min && pinnedMin {
-					chk.Violation("cadence-collapses-to-minimum", fmt.Sprintf("settings %+v, %s: the interval pins to the minimum", set, pat.name), rep)
+				w.stop()
+				if fail != "" {
 					return
 				}
-				if T < set.Max && pinnedMax {
-					chk.Violation("cadence-drifts-to-maximum", fmt.Sprintf("settings %+v, %s: the interval pins to the maximum", set, pat.name), rep)
-					return
+				if pat.steadyT != nil && len(intervals) == nticks {
+					T := pat.steadyT(set)
+					// the last third of the run: the waits must hover around T, not pin to min or max
+					var sum time.Duration
+					tail := intervals[2*nticks/3:]
+					pinnedMin, pinnedMax := true, true
+					for _, iv := range tail {
+						sum += iv
+						if iv != set.Min {
+							pinnedMin = false
+						}
+						if iv != set.Max {
+							pinnedMax = false
+						}
+					}
+					avg := sum / time.Duration(len(tail))
+					rep := map[string]any{"kind": "cadence", "settings": fmt.Sprintf("%+v", set), "pattern": pat.name + " / " + pop.name, "population": pop.name}
+					if T > set.Min && pinnedMin {
+						chk.Violation("cadence-collapses-to-minimum", fmt.Sprintf("settings %+v, %s: the interval pins to the minimum", set, pat.name), rep)
+						return
+					}
+					if T < set.Max && pinnedMax {
+						chk.Violation("cadence-drifts-to-maximum", fmt.Sprintf("settings %+v, %s: the interval pins to the maximum", set, pat.name), rep)
+						return
+					}
+					if T >= set.Min && T <= set.Max && (avg < T/2 || avg > 2*T) {
+						chk.Violation("cadence-does-not-settle", fmt.Sprintf("settings %+v, %s: average interval over the last third is %v, production period %v", set, pat.name, avg, T), rep)
+						return
+					}
+					runs = append(runs, map[string]any{"pattern": pat.name, "population": pop.name, "settings": fmt.Sprintf("%+v", set), "production_period": T.String(), "average_interval_last_third": avg.String(), "polls": polls, "certificates": certsTotal})
+					chk.Sample(map[string]any{"pattern": pat.name, "population": pop.name, "settings": fmt.Sprintf("%+v", set), "production_period": T.String(), "average_interval_last_third": avg.String(), "polls": polls, "certificates": certsTotal})
 				}
-				if T >= set.Min && T <= set.Max && (avg < T/2 || avg > 2*T) {
-					chk.Violation("cadence-does-not-settle", fmt.Sprintf("settings %+v, %s: average interval over the last third is %v, production period %v", set, pat.name, avg, T), rep)
-					return
-				}
-				chk.Sample(map[string]any{"pattern": pat.name, "settings": fmt.Sprintf("%+v", set), "production_period": T.String(), "average_interval_last_third": avg.String(), "polls": polls, "certificates": certsTotal})
+				chk.Add("transitions", int64(polls))
 			}
-			chk.Add("transitions", int64(polls))
 		}
 	}
 }
